@@ -294,6 +294,21 @@ def load (S : Store) : Config :=
     groups := S.groups.filter (managed ·.id)
     services := S.services.filter (managed ·.id) }
 
+/-- The manager answers a listing in pages (`cursor`); `n = 0` means one page. -/
+def pages {α : Type} (n : Nat) (l : List α) : List (List α) :=
+  if n = 0 then [l] else
+    let rec go : Nat → List α → List (List α)
+      | 0, _ => []
+      | fuel + 1, l => if l.length ≤ n then [l] else l.take n :: go fuel (l.drop n)
+    go (l.length + 1) l
+
+/-- `LoadDevice` with paged listings (`getRawJSON`): every page is filtered on the prefix, the
+results are concatenated; the policies are listed once and fetched one by one. -/
+def loadPaged (n : Nat) (S : Store) : Config :=
+  { policies := S.policies.filter (managed ·.id)
+    groups := (pages n S.groups).flatMap (·.filter (managed ·.id))
+    services := (pages n S.services).flatMap (·.filter (managed ·.id)) }
+
 def unmanagedPart (S : Store) : Config :=
   { policies := S.policies.filter (!managed ·.id)
     groups := S.groups.filter (!managed ·.id)
@@ -395,11 +410,11 @@ def targetGroup (GT : List Group) (p : String) : Option Group :=
   | none => none
 
 /-- An entry of a rule on the manager is equivalent to an entry of a target rule: a managed
-target group is matched by a group on the manager with the same address set, anything else by
+target group is matched by a managed group on the manager with the same address set, anything else by
 the same text. -/
 def EPEquiv (GS GT : List Group) (pS pT : String) : Prop :=
   match targetGroup GT pT with
-  | some gt => ∃ n g, pS = groupPath n ∧ findGroup GS n = some g ∧ ∀ x, x ∈ g.addrs ↔ x ∈ gt.addrs
+  | some gt => ∃ n g, pS = groupPath n ∧ managed n = true ∧ findGroup GS n = some g ∧ ∀ x, x ∈ g.addrs ↔ x ∈ gt.addrs
   | none => pS = pT
 
 def RuleEquiv (S : Store) (T : Config) (rS rT : Rule) : Prop :=
